@@ -70,6 +70,20 @@ func main() {
 		}
 		os.Exit(1)
 	}
+	if *dump == "controls" {
+		for _, c := range controls {
+			b, err := os.ReadFile(*repo + "/" + c.File)
+			n := -1
+			applies := false
+			if err == nil {
+				n = strings.Count(string(b), c.Find)
+				cc := c
+				applies = applyControl(&cc, string(b)) != ""
+			}
+			fmt.Printf("%s %-40s applies=%v occurrences=%d nth=%d %s\n", c.Prop, c.Name, applies, n, c.Nth, c.File)
+		}
+		return
+	}
 	if *controlName != "" {
 		runControlChild(*repo, *prop, *controlName)
 		return
